@@ -274,3 +274,8 @@ def write_evidence(ctx: Ctx, mod, nviol: int) -> None:
     evdir = Path(os.environ["VERIF_EVIDENCE_DIR"]) if os.environ.get("VERIF_EVIDENCE_DIR") else VERIF / "evidence"
     evdir.mkdir(parents=True, exist_ok=True)
     (evdir / f"{ctx.pid}.json").write_text(json.dumps(jsonable(ev), indent=1))
+
+
+def is_empty_cluster_error(e: BaseException) -> bool:
+    """known finding F14 (C07): a cluster's microtable is empty while the table so far is not"""
+    return isinstance(e, ValueError) and ("empty range in randrange(0, 0)" in str(e) or "Empty sequence in cluster" in str(e))
